@@ -303,6 +303,23 @@ fn classify(dbv: &Database, q: &GenQuery) -> Result<Class, String> {
     }
 }
 
+/// Stable one-line signature of an optimizer failure: the failing rule and the kind of check that failed
+/// (the schema texts, aliases and plan dumps of the full message are dropped).
+fn optimizer_error_signature(e: &str) -> String {
+    let rule = e.split("Optimizer rule '").nth(1).and_then(|r| r.split('\'').next()).unwrap_or("?");
+    let category = if e.starts_with("panic:") {
+        "panic"
+    } else if e.contains("Failed due to a difference in schemas") {
+        "optimizer schema invariant (assert_valid_optimization): the rule changed the plan's schema"
+    } else if e.contains("Invalid (non-executable) plan after Optimizer rule") {
+        "plan invariant (check_invariants Executable) after the rule"
+    } else {
+        "error"
+    };
+    let detail = if e.contains("field_qualifiers") && e.contains("Failed due to a difference in schemas") { " [field qualifiers differ]" } else { "" };
+    format!("rule '{rule}': {category}{detail}")
+}
+
 fn short(e: &str) -> String {
     e.lines().next().unwrap_or("").chars().take(300).collect()
 }
@@ -458,7 +475,7 @@ fn run_case(c: &Case) -> Result<(), String> {
     };
     let opt = match &pl.outs[2] {
         Ok(p) => p,
-        Err(e) => return Err(head(format!("the optimizer fails on a valid analyzed plan: {}", short(e)))),
+        Err(e) => return Err(head(format!("the optimizer fails on a valid analyzed plan: {} :: {}", optimizer_error_signature(e), e.lines().take(6).collect::<Vec<_>>().join(" | ").chars().take(900).collect::<String>()))),
     };
     check_schema(&pl.analyzed, opt).map_err(&head)?;
     if c.class == Class::Ambiguous {
@@ -716,7 +733,7 @@ fn explore(ctx: &Ctx) {
             "databases": "per query: the 12 rich databases + DB(n,D) over the tables the query reads (Domain::quick, other tables empty)",
             "rich_databases": db::rich_databases().iter().map(|(l, _)| l.clone()).collect::<Vec<_>>(),
             "enumerated_database_bounds": db_bounds, "enumerated_database_budget_per_query": budget,
-            "config": "default, target_partitions=1, 1 partition / 1 batch MemTables",
+            "config": "default, target_partitions=1, 1 partition / 1 batch MemTables; queries with a join or UNION additionally with optimizer.filter_null_join_keys=true and optimizer.enable_unions_to_filter=true (GatedRulesOn)",
         }),
     );
     ctx.set_extra("engine_rejected_queries", json!(rejected));
@@ -799,7 +816,7 @@ fn explore(ctx: &Ctx) {
                 match &pl.outs[pi] {
                     Err(e) => {
                         let kind = if e.starts_with("panic:") { "optimizer-panic" } else { "optimizer-error" };
-                        local_fail.push(Fail { mode, qi, di: 0, pi, kind, what: format!("the optimizer fails on a valid analyzed plan: {}", short(e)) });
+                        local_fail.push(Fail { mode, qi, di: 0, pi, kind, what: format!("the optimizer fails on a valid analyzed plan: {}", optimizer_error_signature(e)) });
                     }
                     Ok(o) => {
                         if let Err(w) = check_schema(&pl.analyzed, o) {
@@ -994,7 +1011,12 @@ fn explore(ctx: &Ctx) {
         }
     }
     for f in per_pair.values() {
-        let key = format!("optimizer-not-result-preserving[{}{}]:{}", if f.mode == Mode::GatedRulesOn { "gated-rules-on " } else { "" }, pipes[f.pi].name, f.kind);
+        let key = if f.kind == "optimizer-error" || f.kind == "optimizer-panic" {
+            // one key per failing rule and failed check, whatever the pipeline that exposes it
+            format!("{}[{}]", f.kind, f.what.trim_start_matches("the optimizer fails on a valid analyzed plan: "))
+        } else {
+            format!("optimizer-not-result-preserving[{}{}]:{}", if f.mode == Mode::GatedRulesOn { "gated-rules-on " } else { "" }, pipes[f.pi].name, f.kind)
+        };
         let rank = (f.qi, f.di, pipeline_rank(&pipes[f.pi].name), f.pi);
         let e = by_key.entry(key).or_insert((rank, f, Default::default()));
         e.2.insert((f.mode, f.qi, f.di));
@@ -1045,11 +1067,10 @@ fn debug_main(args: &[String]) -> bool {
                 println!("--- logical (optimized)\n{}", agg.clone().into_optimized_plan().unwrap().display_indent());
                 let phys = agg.clone().create_physical_plan().await.unwrap();
                 println!("--- physical\n{}", datafusion::physical_plan::displayable(phys.as_ref()).indent(false));
-                let first = engine::run_df(rows_df).map(|r| show_rows(&r.rows));
-                let total = engine::run_df(agg).map(|r| show_rows(&r.rows));
-                (first, total)
+                (rows_df, agg)
             })
         });
+        let r = r.map(|(rows_df, agg)| (engine::run_df(rows_df).map(|r| show_rows(&r.rows)), engine::run_df(agg).map(|r| show_rows(&r.rows))));
         println!("sort(a,b).filter(b>1).limit(1)            -> {:?}", r.as_ref().map(|x| &x.0));
         println!("sort(a,b).filter(b>1).limit(1).sum(b)     -> {:?}", r.as_ref().map(|x| &x.1));
         return true;
